@@ -235,20 +235,20 @@ def case_history(dim, nbodies, reset, dtype, depth):
                 fl.append(Fail(f"{tag}:clock", "forcing clock differs from the sum of the dt values passed", history=h, got=float(b.inter.time), want=b.ref_time))
             integ = b.inter.lag_grid_position_mismatch_field.astype(LD)
             scale_i = float(np.abs(b.ref_integral).max()) + float(np.abs(b.ref_last_mismatch).max()) + 1e-300
-            if float(np.abs(integ - b.ref_integral).max()) > 64 * eps * scale_i * (len(h) + 1):
+            if not float(np.abs(integ - b.ref_integral).max()) <= 64 * eps * scale_i * (len(h) + 1):
                 fl.append(Fail(f"{tag}:integral", "accumulated mismatch integral differs from Euler-forward integration over exactly the dt values passed", history=h, body=bi,
                                got=float(integ.ravel()[0]), want=float(b.ref_integral.ravel()[0])))
             if ev[0] in ("E", "L") and ev[1] == bi:
                 force = b.inter.lag_grid_forcing_field.astype(LD)
                 scale_f = float(np.abs(b.k) * np.abs(b.ref_integral).max() + np.abs(b.c) * (np.abs(b.ref_last_mismatch).max() + 1)) + 1e-300
-                if float(np.abs(force - b.ref_force).max()) > 256 * eps * scale_f * (len(h) + 1):
+                if not float(np.abs(force - b.ref_force).max()) <= 256 * eps * scale_f * (len(h) + 1):
                     m = int(np.argmax(np.abs(force - b.ref_force).max(0)))
                     fl.append(Fail(f"{tag}:pi-law", "marker force != stiffness * integral + damping * current mismatch (scaled by max marker spacing^(dim-1))", history=h, body=bi, marker=m,
                                    got=[float(v) for v in force[:, m]], want=[float(v) for v in b.ref_force[:, m]]))
         # relative to the sum of |contributions| per cell, plus the absolute error of near-zero weights
         # (C06: weights are accurate to a few eps (4 + index) / dx^d)
         ftol = (256 * eps * s.ref_forcing_mag + 8 * eps * 24 * s.ref_force_total / s.dx**s.dim + 1e-300) * (len(h) + 1)
-        bad = np.abs(s.forcing.astype(LD) - s.ref_forcing).astype(np.float64) > ftol
+        bad = ~(np.abs(s.forcing.astype(LD) - s.ref_forcing).astype(np.float64) <= ftol)
         if np.any(bad):
             fl.append(Fail(f"{tag}:eulerian-forcing", "Eulerian forcing field is not previous + spread force (accumulate mode) / the spread force (reset mode)", history=h, cells=int(bad.sum())))
         if ev[0] not in ("E",) and not np.array_equal(s.forcing, s._pre_forcing):
